@@ -82,7 +82,9 @@ type c17world struct {
 	port   int
 	disp   chan string
 	// the property's own reference: a map of sets of keys
-	ref     map[network.PeerSetID]map[int]bool
+	// keyed by the set as the history names it (router-level ids normalised to their 32 bytes,
+	// context-level ids by service and bytes): two services that use the same bytes name two sets
+	ref     map[string]map[int]bool
 	refInit bool
 }
 
@@ -207,6 +209,17 @@ func (w *c17world) newInst(k, f int) (*c17inst, error) {
 	return in, nil
 }
 
+// refKey names a set for the reference independently of how the code derives its id.
+func c17refKey(tok string) string {
+	if strings.HasPrefix(tok, "r") {
+		b, _ := c03unhex(tok[1:])
+		id := network.NewPeerSetID(nil)
+		copy(id[:], b)
+		return fmt.Sprintf("r%x", id[:])
+	}
+	return tok
+}
+
 func (w *c17world) setID(tok string) (network.PeerSetID, *onet.Context, bool) {
 	var none network.PeerSetID
 	if strings.HasPrefix(tok, "r") {
@@ -280,7 +293,7 @@ func c17exec(c *h.Ctx, cs *h.Case) {
 	log.SetDebugVisible(0)
 	log.OutputToBuf() // refusals are logged as errors by the code under test
 	w := &c17world{cs: cs, keys: map[int]*key.Pair{}, byPub: map[string]int{}, byID: map[network.ServerIdentityID]int{},
-		disp: make(chan string, 64), ref: map[network.PeerSetID]map[int]bool{}}
+		disp: make(chan string, 64), ref: map[string]map[int]bool{}}
 	defer w.close()
 	tags := map[string]bool{}
 	for _, op := range cs.Ops {
@@ -310,7 +323,7 @@ func c17exec(c *h.Ctx, cs *h.Case) {
 				} else {
 					w.srv.SetValidPeers(id, peers)
 				}
-				w.ref[id], w.refInit = members, true
+				w.ref[c17refKey(tk[2])], w.refInit = members, true
 				obs = "ok"
 				tags[fmt.Sprintf("set:%d", c03bucketN(len(members)))] = true
 			}
@@ -342,7 +355,7 @@ func c17exec(c *h.Ctx, cs *h.Case) {
 					}
 					// oracle: exactly the members given, by key
 					var want []int
-					for k := range w.ref[id] {
+					for k := range w.ref[c17refKey(tk[2])] {
 						want = append(want, k)
 					}
 					sort.Ints(want)
@@ -521,7 +534,7 @@ func c17gen(c *h.Ctx, yield func(*h.Case)) {
 		npeers := 4 + r.Intn(4)
 		var sets []string
 		for j := 0; j < nsets; j++ {
-			d := fmt.Sprintf("%02x", j+1)
+			d := fmt.Sprintf("%02x", 1+r.Intn(nsets)) // the same bytes may name sets of both services and of the router
 			if r.Intn(8) == 0 {
 				d += "00" // a router-level id that collides with its unpadded twin
 			}
